@@ -20,6 +20,10 @@ from . import core
 from .core import CELLS, VERIF_DIR, canon, case_hash, evaluate, load_findings, nan_to_str
 
 
+QUICK_SCALE = {"C01": 4, "C02": 1, "C03": 3, "C04": 3, "C05": 3, "C06": 3, "C07": 3, "C08": 2, "C09": 2, "C10": 3, "C11": 6,
+               "C12": 4, "C13": 6, "C14": 8, "C15": 5, "C16": 6, "C17": 4, "C18": 2, "C19": 5, "C20": 8}
+
+
 def _write_replay(prop, cell, kind, detail, info, case, sub="found"):
     d = os.path.join(VERIF_DIR, "replays", sub)
     os.makedirs(d, exist_ok=True)
@@ -93,6 +97,14 @@ def main(argv=None) -> int:
         for c in cells:
             c.quick = max(1, int(c.quick * a.scale))
             c.thorough = max(1, int(c.thorough * a.scale))
+    # quick-tier budgets were sized by the module authors on a heavily loaded machine; on an idle 16-core machine
+    # they leave most of the per-change time budget unused, so generated (not enumerated) cells are scaled up here
+    qs = QUICK_SCALE.get(prop, 1)
+    if tier == "quick" and qs != 1:
+        for c in cells:
+            if c.enum is None:
+                c.quick = int(c.quick * qs)
+                c.shards = (min(16, c.shards[0] * min(qs, 4)), c.shards[1])
 
     def known(cell_name, kind, detail, case):
         for f in findings:
